@@ -138,6 +138,7 @@ def run_contract_case(I, contract, case, timeout_ms=None, registry=None):
             I.contracts = dict(I.contracts)
             I.contracts.update(contract.local_contracts())
         I.loop_specs = {contract.name: contract.loops} if contract.loops else {}
+        I.ghost_before = dict(getattr(contract, "ghost_before", {}) or {})
         seen = {}
         inputs_holder = {}
 
